@@ -106,5 +106,26 @@ theorem claim_pays_the_claimant (del : Acct) (hu : IsUser del) (v : ValId) (dn d
     ∃ coins, bankBalance w' del d = bankBalance w del d + Coins.sumOf coins d :=
   claim_pays_the_claimant_exactly del hu v dn d w w' h
 
+
+/-- pro-rata, how exact: the normalised weights `Quo(srw_a, Σ srw)` a reward is split by sum to 1 to within n/2 units of
+    the 18th digit — (Σ nw)·10¹⁸ ∈ [10³⁶ − n·(H+1), 10³⁶ + n·H] for n assets with non-negative staked reward weights -/
+theorem split_weights_sum_to_one (l : List Dec) (hl : ∀ x ∈ l, 0 ≤ x) (ht : 0 < l.sum) :
+    (l.map (fun x => quo x l.sum)).sum * P ≤ P2 + (l.length : Int) * H ∧
+    P2 ≤ (l.map (fun x => quo x l.sum)).sum * P + (l.length : Int) * (H + 1) := split_weights_sum l hl ht
+
+/-- the divisor `AddAssetsToRewardPool` accumulates is that sum -/
+theorem split_total_is_the_sum {α : Type} (srw : α → Dec) (as : List α) :
+    as.foldl (fun acc a => acc + srw a) 0 = (as.map srw).sum := by
+  have := foldl_add_sum srw as 0
+  simp only [Int.zero_add] at this
+  exact this
+
+/-- each normalised weight is within (½ + 10⁻¹⁸) units of the 18th digit of srw/Σ -/
+theorem normalised_weight_is_the_quotient (a b : Dec) (ha : 0 ≤ a) (hb : 0 < b) :
+    quo a b * P * b ≤ a * P2 + H * b ∧ a * P2 ≤ quo a b * P * b + (H + 1) * b := quo_bounds a b ha hb
+
+/-- non-vacuity: three equal weights — each normalised weight is 0.333…, the sum is 1 − 10⁻¹⁸ -/
+example : ([one, one, one].map (fun x => quo x (3 * one))).sum = P - 1 := by decide
+
 end C13
 end Alliance
